@@ -328,8 +328,18 @@ def global_rules(sm, rep, tier):
     for module, disp in DISPATCHERS:
         fi = sm.func(module, disp)
         rep.unit(f"{module}.{disp}")
-        tab = dispatch_table(sm, fi)
         import ast
+        try:
+            tab = dispatch_table(sm, fi)
+        except AnalysisError as e:
+            # not an if/elif chain of type tests (dictionary dispatch, helper, ...): decide coverage by interpreting the
+            # dispatcher for each grid class; argument forwarding (L8f) is then decided by C05.E3u/E5u only
+            rep.notes.append(f"{module}.{disp}: dispatch is not an if/elif chain of type tests ({str(e)[:120]}); coverage decided by interpretation per grid class")
+            for c in MESH_CLASSES:
+                exc, tr = F.dispatch_probe(sm, module, disp, c)
+                rep.ob('L8', f"{module}.{disp}", exc is None, f"{c}: " + ('handled (interpreted)' if exc is None else f"raises {exc}"), fi.loc())
+                rep.ob('L8f', f"{module}.{disp}/argument-forwarding", True, f"{c}: dispatch form not syntactic; forwarding of optional arguments is decided by C05.E3u/E5u", fi.loc(), nontrivial=False)
+            continue
         for c in MESH_CLASSES:
             body, line = tab[c]
             covered = bool(body) and not all(isinstance(st, ast.Raise) for st in body)
